@@ -7,6 +7,7 @@
 
    stream `mini`: line = `<fuel> <n> q₁ … qₙ main ||| <wire input>` with queries in prefix form
         id | c <wire value> | pipe a b | comma a b | iter | empty | arr q | param | call <f> a
+        | error | try b | trycatch b h
      answer: `<instructions of compileProg, scope ids and registers renumbered by first
      appearance> ||| <outputs of the mini VM> END` (or `ERR msg s<hex>`), `?…` when not covered. -/
 import Gojq.Model.Stack
@@ -64,6 +65,21 @@ end StackDrv
 namespace MiniDrv
 open Gojq.MiniVM
 
+/-- marks an error message the message model does not cover (then the line is answered `?`) -/
+def unmodelledMsg : Bytes := B "\x00unmodelled"
+
+/-- `iteratorError{v}.Error()` from the message model of Model/Native/Base.lean -/
+instance : IterMsg where
+  msg v := match (Gojq.Err.builtin "iterator" [v]).message with
+    | some m => .str m
+    | none => .str unmodelledMsg
+
+partial def mentionsUnmodelled : V → Bool
+  | .str s => s == unmodelledMsg
+  | .arr xs => xs.any mentionsUnmodelled
+  | .obj kvs => kvs.any fun (_, x) => mentionsUnmodelled x
+  | _ => false
+
 partial def pQ : List String → Option (Q × List String)
   | "id" :: r => some (.id, r)
   | "iter" :: r => some (.iter, r)
@@ -74,6 +90,9 @@ partial def pQ : List String → Option (Q × List String)
   | "comma" :: r => do let (a, r) ← pQ r; let (b, r) ← pQ r; pure (.comma a b, r)
   | "arr" :: r => do let (a, r) ← pQ r; pure (.arr a, r)
   | "call" :: f :: r => do let f ← f.toNat?; let (a, r) ← pQ r; pure (.call1 f a, r)
+  | "error" :: r => some (.error, r)
+  | "try" :: r => do let (a, r) ← pQ r; pure (.try_ a, r)
+  | "trycatch" :: r => do let (a, r) ← pQ r; let (b, r) ← pQ r; pure (.tryCatch a b, r)
   | _ => none
 
 partial def pQs : Nat → List String → Option (List Q × List String)
@@ -121,6 +140,9 @@ def showInstr (r : Ren) : Instr → Ren × String
   | .ret => (r, "ret")
   | .pushpc t => (r, s!"pushpc {t}")
   | .callpc => (r, "callpc")
+  | .forktrybegin t => (r, s!"forktrybegin {t}")
+  | .forktryend => (r, "forktryend")
+  | .callerror => (r, "call error/0")
 
 def showCode (code : Code) : String :=
   let (_, out) := code.foldl (fun (acc : Ren × List String) i =>
@@ -130,12 +152,18 @@ def showCode (code : Code) : String :=
 def showOuts (outs : List V) : String := String.join (outs.map fun o => toWire o ++ " ; ")
 
 def showOutcome : Outcome → String
-  | .finished outs none => showOuts outs ++ "END"
-  | .finished outs (some (.notIter v)) =>
+  | .finished outs none =>
+    if outs.any mentionsUnmodelled then "?error message not modelled" else showOuts outs ++ "END"
+  | .finished outs (some (.plain (.notIter v))) =>
     match (Gojq.Err.builtin "iterator" [v]).message with
-    | some m => showOuts outs ++ "ERR msg s" ++ bytesToHex m
+    | some m => if outs.any mentionsUnmodelled || mentionsUnmodelled v then "?error message not modelled"
+                else showOuts outs ++ "ERR msg s" ++ bytesToHex m
     | none => "?error message not modelled"
-  | .finished _ (some .noParam) => "?parameter used outside a function"
+  | .finished outs (some (.plain (.user v))) =>
+    if outs.any mentionsUnmodelled || mentionsUnmodelled v then "?error message not modelled"
+    else showOuts outs ++ "ERR value " ++ toWire v
+  | .finished _ (some (.plain .noParam)) => "?parameter used outside a function"
+  | .finished outs (some (.tryEnd _)) => showOuts outs ++ "STUCK tryEndError escaped"
   | .outOfFuel _ => "?fuel"
   | .stuck outs => showOuts outs ++ "STUCK"
 
